@@ -26,6 +26,8 @@ type Scenario struct {
 	Alphabet []model.Op
 	Depth    int
 	Drain    bool
+	// Converge: from every state also run the two "reclaim everything" runs (C15)
+	Converge bool
 	// Prelude is executed (and must be hit-free) before exploration starts.
 	Prelude []model.Op
 }
@@ -211,6 +213,17 @@ func (wk *Worker) Run(t Task) (res Result) {
 		if err := back(); err != nil {
 			res.Err = err.Error()
 			return
+		}
+	}
+	if sc.Converge {
+		for _, variant := range []string{"delete-all", "ack-all"} {
+			h, n := r.Converge(variant)
+			res.DrainHits = append(res.DrainHits, h...)
+			res.DrainOps += n
+			if err := back(); err != nil {
+				res.Err = err.Error()
+				return
+			}
 		}
 	}
 	if t.Drain {
@@ -440,7 +453,7 @@ func Explore(sc *Scenario, exe string, workerArgs []string, nWorkers int, deadli
 		st.Levels = append(st.Levels, len(frontier))
 		st.MaxDepth = depth
 		last := depth == sc.Depth
-		if last && !sc.Drain {
+		if last && !sc.Drain && !sc.Converge {
 			break
 		}
 		tasks := make(chan item, len(frontier))
@@ -480,7 +493,7 @@ func Explore(sc *Scenario, exe string, workerArgs []string, nWorkers int, deadli
 						st.KeyChecks++
 					}
 					st.Transitions += res.Transitions
-					if sc.Drain {
+					if sc.Drain || sc.Converge {
 						st.DrainRuns++
 						st.DrainOps += res.DrainOps
 					}
@@ -556,4 +569,167 @@ func Explore(sc *Scenario, exe string, workerArgs []string, nWorkers int, deadli
 		return strings.Join(viol[i].Path, "\x00") < strings.Join(viol[j].Path, "\x00")
 	})
 	return st, viol, fatal
+}
+
+// Converge (C15): make everything dead, let more than the age threshold pass,
+// then run the seven maintenance jobs round after round (rotation and direction
+// of the order depend on the state) until a full round reclaims nothing.  At
+// that fixpoint no job may still be failing and no dead row may be left.
+func (r *Runner) Converge(variant string) (hits []model.Hit, ops int) {
+	do := func(op model.Op) (model.Obs, bool) {
+		en, _, obs, h := r.Do(op)
+		if en {
+			ops++
+			for _, x := range h {
+				if x.Rule != "job-failed" {
+					hits = append(hits, x)
+				}
+			}
+		}
+		return obs, en
+	}
+	switch variant {
+	case "delete-all":
+		names := make([]string, 0)
+		for n, s := range r.M.Subs {
+			if s.Live {
+				names = append(names, n)
+			}
+		}
+		sort.Strings(names)
+		for _, n := range names {
+			do(model.Op{K: "deleteSub", Sub: n})
+		}
+		names = names[:0]
+		for n, t := range r.M.Topics {
+			if t.Live {
+				names = append(names, n)
+			}
+		}
+		sort.Strings(names)
+		for _, n := range names {
+			do(model.Op{K: "deleteTopic", Topic: n})
+		}
+	case "ack-all":
+		dh, n := r.Drain()
+		hits = append(hits, dh...)
+		ops += n
+	}
+	if len(hits) > 0 {
+		return
+	}
+	do(model.Op{K: "tick", Tgt: "+2h"})
+	rot := r.M.Steps % len(model.JobNames)
+	rev := (r.M.Steps/len(model.JobNames))%2 == 1
+	order := make([]string, 0, len(model.JobNames))
+	for i := range model.JobNames {
+		j := (rot + i) % len(model.JobNames)
+		if rev {
+			j = (rot - i + 2*len(model.JobNames)) % len(model.JobNames)
+		}
+		order = append(order, model.JobNames[j])
+	}
+	failing := map[string]string{}
+	for round := 0; round < 40; round++ {
+		progress := false
+		for _, j := range order {
+			if j == "delete-expired-subscriptions" && variant == "ack-all" {
+				continue // live subscriptions must stay; TTL expiry is not under test here
+			}
+			obs, en := do(model.Op{K: "job", Job: j, MinAge: time.Hour, MaxDel: 100})
+			if !en {
+				continue
+			}
+			if obs.Err != "" {
+				failing[j] = obs.Err
+			} else {
+				delete(failing, j)
+				if obs.N > 0 {
+					progress = true
+				}
+			}
+		}
+		if !progress {
+			break
+		}
+	}
+	if len(hits) > 0 {
+		return
+	}
+	for j, e := range failing {
+		hits = append(hits, model.Hit{Rule: "job-stuck", Props: []string{"C15"}, Text: fmt.Sprintf("[%s] at the fixpoint (no job reclaims anything any more, order %v) job %s still fails: %s", variant, order, j, e)})
+	}
+	snap, err := r.W.Dump()
+	if err != nil {
+		panic(err)
+	}
+	count := func(table string, pred func(world.Row) bool) int {
+		n := 0
+		for _, row := range snap.Rows[table] {
+			if pred == nil || pred(row) {
+				n++
+			}
+		}
+		return n
+	}
+	var left []string
+	switch variant {
+	case "delete-all":
+		for _, t := range world.Tables {
+			if n := count(t, nil); n > 0 {
+				left = append(left, fmt.Sprintf("%s=%d", t, n))
+			}
+		}
+	case "ack-all":
+		ci := snap.Col("deliveries", "completed_at")
+		ei := snap.Col("deliveries", "expires_at")
+		now := r.W.Now()
+		if n := count("deliveries", func(row world.Row) bool {
+			if row[ci] != nil {
+				return true
+			}
+			if e, ok := row[ei].(time.Time); ok && e.Before(now) {
+				return true
+			}
+			return false
+		}); n > 0 {
+			left = append(left, fmt.Sprintf("completed-or-expired deliveries=%d", n))
+		}
+		// messages without any delivery
+		mi := snap.Col("messages", "id")
+		dm := snap.Col("deliveries", "message_id")
+		has := map[string]bool{}
+		for _, row := range snap.Rows["deliveries"] {
+			has[fmt.Sprint(row[dm])] = true
+		}
+		if n := count("messages", func(row world.Row) bool { return !has[fmt.Sprint(row[mi])] }); n > 0 {
+			left = append(left, fmt.Sprintf("messages without deliveries=%d", n))
+		}
+		di := snap.Col("subscriptions", "deleted_at")
+		if n := count("subscriptions", func(row world.Row) bool { return row[di] != nil }); n > 0 {
+			left = append(left, fmt.Sprintf("deleted subscriptions=%d", n))
+		}
+		// a deleted topic is dead only once no live subscription refers to it
+		// (subscriptions outlive their topic and keep their backlog)
+		ti := snap.Col("topics", "deleted_at")
+		tid := snap.Col("topics", "id")
+		st := snap.Col("subscriptions", "topic_id")
+		sdl := snap.Col("subscriptions", "dead_letter_topic_id")
+		ref := map[string]bool{}
+		for _, row := range snap.Rows["subscriptions"] {
+			if row[di] == nil {
+				ref[fmt.Sprint(row[st])] = true
+				if row[sdl] != nil {
+					ref[fmt.Sprint(row[sdl])] = true
+				}
+			}
+		}
+		if n := count("topics", func(row world.Row) bool { return row[ti] != nil && !ref[fmt.Sprint(row[tid])] }); n > 0 {
+			left = append(left, fmt.Sprintf("deleted topics=%d", n))
+		}
+	}
+	if len(left) > 0 {
+		hits = append(hits, model.Hit{Rule: "dead-rows-left", Props: []string{"C15"}, Text: fmt.Sprintf("[%s] at the fixpoint of the maintenance jobs (order %v) dead rows remain: %v", variant, order, left)})
+	}
+	return
 }
